@@ -127,10 +127,60 @@ class Transaction:
 
         if not _statistics_computed_here:
             files = [self._with_verified_bounds(f, table_schema) for f in files]
+        self._protect_adopted_files(files)
 
         self._operations.append({"type": "append_files", "files": files})
 
         return self
+
+    def _protect_adopted_files(self, files: List[DataFile]) -> None:
+        """Put pre-built files under GC protection before they are queued.
+
+        A file written by append_data() has had its marker since before it
+        existed. A pre-built file has none - and may already be older than any
+        grace period: unreferenced until this transaction commits, it is an
+        orphan to every collection run, which deletes it under the commit
+        (the new snapshot then references a missing file). So each such file
+        gets an in-flight marker now, removed like the others after commit /
+        rollback. The marker protects against every run that loads the markers
+        from now on; a run that loaded them earlier has announced itself
+        before doing so (GarbageCollector.announce_run), so it is visible
+        here: the adoption is refused while it lasts. Finally the files must
+        still exist (an earlier run may have collected them as orphans).
+        Nothing is left behind when the adoption is refused.
+        """
+        from .garbage_collector import CollectionInProgressError, collection_in_progress
+
+        storage = self.file_manager.storage
+        new_markers: List[str] = []
+        try:
+            for data_file in files:
+                marker_name = data_file.file_path.rsplit("/", 1)[-1]
+                marker_path = f"{_INFLIGHT_PATH}/{marker_name}.inflight"
+                if marker_path in self._inflight_markers:
+                    continue  # written by this transaction (append_data): protected since before it existed
+                self._register_inflight(data_file.file_path)
+                new_markers.append(marker_path)
+            if not new_markers:
+                return
+            running = collection_in_progress(storage)
+            if running is not None:
+                raise CollectionInProgressError(
+                    f"A garbage collection run is in progress ({running}); pre-built data files "
+                    f"cannot be adopted safely until it has finished. Nothing was queued - retry."
+                )
+            for data_file in files:
+                if not self.file_manager.validate_file_exists(data_file.file_path):
+                    raise FileNotFoundError(f"Data file does not exist: {data_file.file_path}")
+        except BaseException:
+            for marker_path in new_markers:
+                try:
+                    storage.delete_file(marker_path)
+                except Exception:
+                    continue  # a leftover marker only extends protection (swept after the abandonment window)
+                if marker_path in self._inflight_markers:
+                    self._inflight_markers.remove(marker_path)
+            raise
 
     @staticmethod
     def _require_canonical_path(file_path: str) -> None:
@@ -993,7 +1043,13 @@ class Table:
         """
         from .garbage_collector import GarbageCollector
         gc = GarbageCollector(self.table_path, self.metadata_manager, self.file_manager)
-        return gc.collect(grace_period_ms)
+        # Announced for the whole run, from before the in-flight markers are
+        # loaded: transactions adopting pre-built files (append_files) look for it.
+        announcement = gc.announce_run(grace_period_ms)
+        try:
+            return gc.collect(grace_period_ms)
+        finally:
+            gc.withdraw_run(announcement)
 
     def row_count(self) -> int:
         """Get total row count from parquet metadata without scanning data.
